@@ -1,6 +1,6 @@
 """C03 - relative-day expressions hit the exact calendar day for every reference time."""
 import random
-from datetime import datetime
+from datetime import datetime, timedelta, timezone
 
 from .. import core, e2e, grammar as G, qa
 from . import common
@@ -65,10 +65,25 @@ def case_tokens():
 
 
 class _FakeDatetime(datetime):
+    """datetime with a fixed 'current instant': _now is the LOCAL wall-clock time, _offset the local zone's offset from UTC.
+    now() without argument gives local time (what 'the current time' means for a naive reference time); now(tz) / utcnow()
+    give the same instant in another zone - so code that takes the current time in UTC is told apart."""
     _now = None
+    _offset = timedelta(hours=14)
 
     @classmethod
     def now(cls, tz=None):
+        if tz is None:
+            return cls._now
+        utc = (cls._now - cls._offset).replace(tzinfo=timezone.utc)
+        return utc.astimezone(tz)
+
+    @classmethod
+    def utcnow(cls):
+        return cls._now - cls._offset
+
+    @classmethod
+    def today(cls):
         return cls._now
 
 
@@ -76,6 +91,7 @@ def obs_now_default(case):
     """ts omitted: the reference time is the current time (datetime.now patched to a fixed instant)."""
     ts = e2e.ts_of(case["ts"])
     _FakeDatetime._now = ts
+    _FakeDatetime._offset = timedelta(hours=case.get("offset", 14))
     orig = qa.CTP.datetime
     qa.CTP.datetime = _FakeDatetime
     try:
@@ -135,6 +151,7 @@ def run(ctx):
     cases = [{"text": t, "D": D, "ts": ts + (30, 123456), "label": lab.split(":")[0], "form": t}
              for lab, t, D in reps for ts in tss]
     cases += [{"text": t, "D": D, "ts": ts, "label": lab.split(":")[0], "form": t} for lab, t, D in reps for ts in sub[:2]]
+    cases = [dict(c, offset=(14, -12, 0, 5)[i % 4]) for i, c in enumerate(cases)]       # the local zone is not UTC
     core.run_stage(ctx, "e2e-default-now", cases, obs_now_default, "DenoteTrace")
     ctx.exhaustive = False
 
